@@ -710,6 +710,57 @@ _codecs_facade = types.ModuleType('codecs')
 _codecs_facade.__dict__.update(vars(_codecs_mod))
 _codecs_facade.lookup = _codecs_lookup  # type: ignore
 
+
+import os as _os_mod
+import posixpath as _pp_mod
+
+FS_HOOK: list = [None]     # when set: object receiving every file-system call made by pymap modules
+
+
+def _sym_path_join(a: Any, *p: Any) -> Any:
+    """posixpath.join over possibly symbolic str (same algorithm as CPython's)"""
+    if not (is_sym(a) or any(is_sym(x) for x in p)):
+        return _pp_mod.join(a, *p)
+    path = lift(a) if not is_sym(a) else a
+    for b in p:
+        b = lift(b) if not is_sym(b) else b
+        if b.startswith('/'):
+            path = b
+        elif len(path) == 0 or path.endswith('/'):
+            path = path + b
+        else:
+            path = path + '/' + b
+    return path
+
+
+def _fs(name: str, real: Any) -> Any:
+    def call(*a: Any, **k: Any) -> Any:
+        h = FS_HOOK[0]
+        if h is not None:
+            return getattr(h, name)(*a, **k)
+        return real(*a, **k)
+    call.__name__ = name
+    return call
+
+
+_ospath_facade = types.ModuleType('posixpath')
+_ospath_facade.__dict__.update(vars(_pp_mod))
+_ospath_facade.join = _sym_path_join  # type: ignore
+for _n in ('isdir', 'exists', 'isfile', 'getmtime'):
+    setattr(_ospath_facade, _n, _fs('path_' + _n, getattr(_pp_mod, _n)))
+_os_facade = types.ModuleType('os')
+_os_facade.__dict__.update(vars(_os_mod))
+_os_facade.path = _ospath_facade  # type: ignore
+for _n in ('listdir', 'remove', 'rmdir', 'rename', 'unlink', 'mkdir', 'makedirs', 'walk', 'stat', 'utime', 'link'):
+    setattr(_os_facade, _n, _fs(_n, getattr(_os_mod, _n)))
+
+
+def _open(*a: Any, **k: Any) -> Any:
+    h = FS_HOOK[0]
+    if h is not None:
+        return h.open(*a, **k)
+    return open(*a, **k)
+
 def _import(name: str, globals: Any = None, locals: Any = None,
             fromlist: Any = (), level: int = 0) -> Any:
     if level == 0:
@@ -729,6 +780,10 @@ def _import(name: str, globals: Any = None, locals: Any = None,
             return _zlib_facade
         if name == 'codecs':
             return _codecs_facade
+        if name == 'os':
+            return _os_facade
+        if name == 'os.path':
+            return _os_facade if not fromlist else _ospath_facade
     return builtins.__import__(name, globals, locals, fromlist, level)
 
 
@@ -776,7 +831,7 @@ _b64_facade.b64decode = _b64decode  # type: ignore
 SYM_BUILTINS = dict(vars(builtins))
 SYM_BUILTINS.update(
     bytes=_bytes, bytearray=_bytearray, memoryview=_memoryview, int=_int,
-    str=_str, dict=SymDict, frozenset=_frozenset, iter=_iter, chr=_chr, ord=_ord, min=_min, max=_max, range=_range,
+    str=_str, dict=SymDict, frozenset=_frozenset, iter=_iter, open=_open, chr=_chr, ord=_ord, min=_min, max=_max, range=_range,
     __import__=_import)
 
 
